@@ -174,6 +174,26 @@ def pool_model(work, procs):
             "wall_s": round(r.wall, 1)}
 
 
+def pool_proof(work):
+    """TLAPS: the four safety properties of ArtPool are invariants for ANY number of nodes, trees and processes.
+    Informative (the verdict about the code comes from the traces); a prover failure is reported, not fatal."""
+    import subprocess
+    t1 = time.time()
+    d = work.path("tlaps-pool")
+    os.makedirs(d, exist_ok=True)
+    for f in ("ArtPool.tla", "ArtPoolProof.tla"):
+        shutil.copy(os.path.join(work.specdir, f), d)
+    try:
+        p = subprocess.run(["tlapm", "--threads", "8", "ArtPoolProof.tla"], cwd=d, capture_output=True, text=True, timeout=900)
+        m = re.search(r"All (\d+) obligations? proved", p.stdout + p.stderr)
+        if m:
+            return {"stage": "proof:ArtPoolProof (tlapm): the four pool safety properties are invariants of Spec for any number of nodes, trees, processes",
+                    "obligations": int(m.group(1)), "discharged": int(m.group(1)), "wall_s": round(time.time() - t1, 1)}
+        return {"stage": "proof:ArtPoolProof (tlapm)", "result": "not all obligations proved", "tail": (p.stdout + p.stderr)[-300:]}
+    except Exception as e:
+        return {"stage": "proof:ArtPoolProof (tlapm)", "result": "prover did not run: %s" % e}
+
+
 def env_model(work):
     cfg = ('CONSTANTS\n Keys = {k1, k2, k3}\n Bufs = {b1, b2}\n KeyLen = 8\n MaxOps = 6\n BufferAppendOnly = FALSE\n AliasCaller = FALSE\n'
            ' WriteTerminator = FALSE\nINIT Init\nNEXT Next\nINVARIANTS CallerUntouched KeysOwned BoundedRetention EmptyRetainsNothing\nCHECK_DEADLOCK FALSE\n')
@@ -189,7 +209,7 @@ TREE_INVS = ["Inv_C01", "Inv_C02", "Inv_C05", "Inv_C06", "Inv_C11"]
 def check_C12(work, prop, tier, seed, t0):
     q = tier == "quick"
     drive = build_harness(work)
-    model_runs = [pool_model(work, 1)]
+    model_runs = [pool_model(work, 1), pool_proof(work)]
     # short fill/drain cycles so that nodes of every class are released by one tree and picked up by another many times
     kinds = "uint8:fan64,alpha/string:fanb,uint16:fanp64,alpha/bytes:fan64,uint32:fanp64" if q else "uint8:fan1,alpha/string:fan1x,int8:fan64,alpha/bytes:fanb,uint8:fan64"
     ni = []
@@ -240,7 +260,7 @@ def check_C13(work, prop, tier, seed, t0):
 
 def check_C16(work, prop, tier, seed, t0):
     q = tier == "quick"
-    model_runs = [pool_model(work, 2)]
+    model_runs = [pool_model(work, 2), pool_proof(work)]
     jobs = []
     for procs in ([2, 4, 16] if not q else [4, 16]):
         for s in range(1 if q else 3):
